@@ -10,10 +10,11 @@ pub mod c08;
 pub mod c09;
 pub mod c10;
 pub mod c12;
+pub mod c13;
 pub mod c14;
 pub mod c15;
 pub mod c16;
 
 pub fn all() -> Vec<Property> {
-    vec![c01::property(), c02::property(), c03::property(), c04::property(), c06::property(), c07::property(), c08::property(), c09::property(), c10::property(), c12::property(), c14::property(), c15::property(), c16::property()]
+    vec![c01::property(), c02::property(), c03::property(), c04::property(), c06::property(), c07::property(), c08::property(), c09::property(), c10::property(), c12::property(), c13::property(), c14::property(), c15::property(), c16::property()]
 }
